@@ -1,11 +1,11 @@
 SPECIFICATION Spec
 CONSTANTS
-  Inst = {a, b, c}
+  Inst = {a, b}
   Sh = {1}
   MaxClaims = 3
   MaxDup = 1
-  MaxSnap = 0
-  AllowLeave = FALSE
+  MaxSnap = 1
+  AllowLeave = TRUE
   AllowRelease = TRUE
   TsFix = TRUE
 INVARIANTS SingleNewestOwner
